@@ -52,7 +52,7 @@ def _cc(args):
     return r.returncode, r.stderr
 
 
-def build_impl(name="impl", hooks=True, extra=(), srcdir=None):
+def build_impl(name="impl", hooks=True, extra=(), srcdir=None, cc="gcc"):
     """Compile the current /repo/src (copied first, so nothing is written to /repo)
     into <scratch>/<name>/lbzip2.  Asserts stay enabled (no -DNDEBUG)."""
     out = subdir(name)
@@ -65,14 +65,14 @@ def build_impl(name="impl", hooks=True, extra=(), srcdir=None):
     jobs = []
     for f in cfiles:
         o = os.path.join(out, f[:-2] + ".o")
-        jobs.append(["gcc"] + flags + ["-c", os.path.join(src, f), "-o", o])
+        jobs.append([cc] + flags + ["-c", os.path.join(src, f), "-o", o])
     with ThreadPoolExecutor(max_workers=min(NCPU, len(jobs))) as ex:
         res = list(ex.map(_cc, jobs))
     for (rc, err), j in zip(res, jobs):
         if rc != 0:
             raise Infra("build failed: %s\n%s" % (" ".join(j), err[-2000:]))
     exe = os.path.join(out, "lbzip2")
-    rc, err = _cc(["gcc"] + flags + [os.path.join(out, f[:-2] + ".o") for f in cfiles] + ["-o", exe])
+    rc, err = _cc([cc] + flags + [os.path.join(out, f[:-2] + ".o") for f in cfiles] + ["-o", exe])
     if rc != 0:
         raise Infra("link failed: " + err[-2000:])
     return exe
